@@ -168,6 +168,13 @@ def gen_directed(seed, rng):
                 hot = rng.sample(adopted, min(len(adopted), rng.choice([1, 2, 3])))
     n = rng.choice([2, 2, 2, 3, 3, 4])
     threads = [[a], [b]]
+    from sim.pool import catalog as _C
+
+    if core.Z.op_by_name[a].ck in _C.L3_SENSITIVE and rng.random() < 0.7:
+        # the first use of a class races the import of the module that registers a converter for one of its
+        # field types; the same caller then goes on using the class
+        again = [nm for nm in ops_of_class(core.Z.op_by_name[a].ck)]
+        threads = [[a] + [rng.choice(again) for _ in range(rng.choice([1, 2]))], ["import:L3"]]
     pool = same_doc or index.get(h) or [a]
     for _ in range(n - 2):
         threads.append([rng.choice(pool) if rng.random() < 0.7 else rng.choice(names)])
